@@ -14,7 +14,7 @@ CLAIMED = {
     ),
     "C07": (
         "proptest-driven tape generation of outputs and configurations + bounded-exhaustive width-border / address-length sweeps + builder scenarios, with the (160 + size) x coins_per_byte bound evaluated on the emitted bytes",
-        "Generated-input search: outputs (every address kind and length incl. long Byron and malformed, coin widths, bundles, datum hash / inline datum, script reference) and configurations (coins per byte in width classes and aimed at the 256 / 65536 / 2^32 borders of cpb x (160 + size), max value size, max tx size) go through min_ada_for_output / MinOutputAdaCalculator, add_output, add_mint_asset_and_output, the output builder's min-coin helper and full builder scenarios (change, collateral return, minted-asset outputs); each emitted output is re-read with the engine's CBOR reader and must satisfy coin >= cpb x (160 + size), the returned minimum must not exceed the bound at the 8-byte coin, every emitted value must fit max_value_size and every built transaction max_tx_size. An exhaustive sweep (cpb 1..=700 x 12 shapes x padded bundles x 6 start coins; 110 addresses x 6 feature sets x 3 cpb) covers the fixed-point borders. Exploration is the right level: the function is a fixed point over its own encoded width, cheap to evaluate, and its failures sit on width borders the generators aim at.",
+        "Generated-input search: outputs (every address kind and length incl. long Byron and malformed, coin widths, bundles, datum hash / inline datum, script reference) and configurations (coins per byte in width classes and aimed at the 256 / 65536 / 2^32 borders of cpb x (160 + size), max value size, max tx size) go through min_ada_for_output / MinOutputAdaCalculator, add_output, add_mint_asset_and_output, the two collateral-return helpers (max_value_size placed at / 1 / 2..10 bytes below the return's size, return coins walked around the minimum), the output builder's min-coin helper and full builder scenarios (change, collateral return, minted-asset outputs); each emitted output is re-read with the engine's CBOR reader and must satisfy coin >= cpb x (160 + size), the returned minimum must not exceed the bound at the 8-byte coin, every emitted value must fit max_value_size and every built transaction max_tx_size. An exhaustive sweep (cpb 1..=700 x 12 shapes x padded bundles x 6 start coins; 110 addresses x 6 feature sets x 3 cpb) covers the fixed-point borders. Exploration is the right level: the function is a fixed point over its own encoded width, cheap to evaluate, and its failures sit on width borders the generators aim at.",
         "Trusts the engine's CBOR reader for size and coin; u128 arithmetic. Known finding: the output builder's helper sizes with a 57-byte placeholder address (known_findings.json).",
         "DESIGN.md \u00a75 C07",
     ),
@@ -44,7 +44,7 @@ CLAIMED = {
     ),
     "C09": (
         "proptest-driven builder scenarios + recomputation of script-integrity and auxiliary-data hashes from the emitted bytes",
-        "Generated builder scenarios (tape-decoded parameters, keyring, UTxO universe the scenario owns, operation sequence through every public route incl. certificates, withdrawals, mint/burn, votes, proposals, collateral, fee requests, the 7 balancing routes) are applied to the real TransactionBuilder; the emitted transaction is parsed by the engine's own CBOR reader and judged by the engine's ledger oracle, which never asks the library for a sum, size, deposit, fee or hash. Body key 11 must equal blake2b256(redeemer bytes | datum bytes | language views of the languages in use) recomputed from the emitted witness set with the engine's own language-view encoder, and body key 7 must equal blake2b256 of the attached auxiliary-data bytes.",
+        "Generated builder scenarios (tape-decoded parameters, keyring, UTxO universe the scenario owns, operation sequence through every public route incl. certificates, withdrawals, mint/burn, votes, proposals, collateral, fee requests, the 7 balancing routes) are applied to the real TransactionBuilder; the emitted transaction is parsed by the engine's own CBOR reader and judged by the engine's ledger oracle, which never asks the library for a sum, size, deposit, fee or hash. Body key 11 must equal blake2b256(redeemer bytes | datum bytes | language views of the languages in use) recomputed from the emitted witness set with the engine's own language-view encoder, and body key 7 must equal blake2b256 of the attached auxiliary-data bytes. A second sub-check compares the stand-alone helpers (hash_script_data, hash_plutus_data, hash_auxiliary_data) with blake2b256 over bytes cut out of a serialized witness set / transaction and the engine's own language views, for 0-3 redeemers, 0-3 datums and every subset of V1-V3 cost models (incl. the documented no-redeemer form).",
         "Trusts the engine's ledger oracle (ledger.rs: Conway deposit table, witsVKeyNeeded, fee formula, language views, pointer rules) and cryptoxide's blake2b / Ed25519 for real signatures; scenario preconditions are listed in the evidence assumptions.",
         "DESIGN.md \u00a75 C09",
     ),
